@@ -20,7 +20,8 @@ func (c *Ctx) resumeFrom(cs *CiscoCase, st *cisco.Conf, cut string) (key, msg st
 		return "resume-panic|" + panicFunc(p.Panic), "second approve panics on the partially changed device: " + firstLine(p.Panic), in
 	}
 	if p.Exit != 0 {
-		return "resume-rejected", "second approve rejects the partially changed device: " + firstLine(p.Stderr), in
+		e := errorLine(p.Stderr)
+		return "resume-rejected|" + errorClass(e), "second approve rejects the partially changed device: " + e, in
 	}
 	in["script2"] = scriptText(p.Script)
 	n := cisco.NewNode(st.Clone())
@@ -140,8 +141,9 @@ func c10Run(c *Ctx, tp *tape.Tape, extra map[string]any) *Failure {
 		"device_at_cut": strings.Split(cisco.Print(st, cs.PO), "\n"), "cutidx": -1,
 		"stderr2": strings.Split(r2.Res.Stderr+r2.RunLog, "\n")}
 	if r2.Res.Exit != 0 || r2.Res.Panic != "" {
-		if k := "live-resume-failed"; !c.NoteKnown(kind + "|" + k) {
-			return mk(k, "second session fails: "+firstLine(r2.Res.Stderr+r2.RunLog+r2.Res.Panic), in)
+		e := errorLine(r2.RunLog + "\n" + r2.Res.Stderr + "\n" + r2.Res.Panic)
+		if k := "live-resume-failed|" + errorClass(e); !c.NoteKnown(kind + "|" + k) {
+			return mk(k, "second session fails: "+e, in)
 		}
 		return nil
 	}
@@ -154,3 +156,24 @@ func c10Run(c *Ctx, tp *tape.Tape, extra map[string]any) *Failure {
 }
 
 func init() { Registry["C10"] = c10Run }
+
+func errorLine(stderr string) string {
+	for _, l := range strings.Split(stderr, "\n") {
+		if strings.HasPrefix(l, "ERROR>>>") || strings.HasPrefix(l, "Error:") {
+			return l
+		}
+	}
+	return firstLine(stderr)
+}
+
+func errorClass(e string) string {
+	switch {
+	case strings.Contains(e, "Missing peer or dynamic in crypto map"):
+		return "crypto-entry-without-peer"
+	case strings.Contains(e, "references unknown"):
+		return "dangling-reference"
+	case strings.Contains(e, "not known on device"):
+		return "unknown-interface"
+	}
+	return firstWords(strings.TrimPrefix(e, "ERROR>>> "), 3)
+}
